@@ -1,6 +1,7 @@
 package main
 
 import (
+	"bytes"
 	"errors"
 	"fmt"
 
@@ -226,6 +227,63 @@ func init() {
 		Describe: func(v interface{}) string { return hx(v.(*c13Case).input) },
 	}
 
+	// strings with a multi-byte length head (24, 255, 256, 65535, 65536 bytes and their neighbours) in tail and
+	// non-tail positions, cut short by 0..10 bytes at the end of the input or declared 1..9 bytes too long /
+	// too short: the payload bound has to take the width of the head into account
+	long := &mc.Harness{
+		Name:     "C13/long-strings",
+		Isolated: true,
+		Gen: func(c *mc.Ctx) interface{} {
+			lens := []int{23, 24, 25, 255, 256, 257, 65535, 65536}
+			n := lens[c.Free(len(lens), "len")]
+			major := []int{refcbor.Bytes, refcbor.Text}[c.Free(2, "major")]
+			payload := bytes.Repeat([]byte{'a'}, n)
+			declared := uint64(n)
+			cut := 0
+			switch c.Free(3, "defect") {
+			case 1:
+				cut = 1 + c.Free(10, "cut")
+			case 2:
+				d := []int64{1, 2, 3, 4, 5, 8, 9, -1, -2, -9}[c.Free(10, "declared length off by")]
+				declared = uint64(int64(n) + d)
+			}
+			item := append(refcbor.AppendHead(nil, major, declared), payload...)
+			var in []byte
+			ctx := c.Free(8, "context")
+			switch ctx {
+			case 0:
+				in = item
+			case 1:
+				in = append([]byte{0x00}, item...)
+			case 2:
+				in = append([]byte{0x81}, item...)
+			case 3:
+				in = append([]byte{0x82, 0x00}, item...)
+			case 4:
+				in = append([]byte{0xa1, 0x00}, item...)
+			case 5:
+				in = append([]byte{0x81, 0x81}, item...)
+			case 6:
+				in = append(append([]byte{0x82}, item...), 0x00)
+			default:
+				in = append(append([]byte{0xa1}, item...), 0x00)
+			}
+			if cut > len(in) {
+				cut = len(in)
+			}
+			in = in[:len(in)-cut]
+			return &c13Case{input: in, family: "long", note: fmt.Sprintf("%d-byte string, declared %d, context %d, %d bytes cut from the end", n, declared, ctx, cut)}
+		},
+		Exec: c13Exec,
+		Describe: func(v interface{}) string {
+			cs := v.(*c13Case)
+			if len(cs.input) > 64 {
+				return hx(cs.input[:32]) + "..." + hx(cs.input[len(cs.input)-16:]) + " (" + cs.note + ")"
+			}
+			return hx(cs.input) + " (" + cs.note + ")"
+		},
+	}
+
 	trees := &mc.Harness{
 		Name:     "C13/generated-items",
 		Isolated: true,
@@ -372,9 +430,9 @@ func init() {
 	register(&mc.Property{
 		ID:          "C13",
 		Level:       "model_checking",
-		Rule:        "choice-tree enumeration of inputs to cbor.Deterministic executed in watchdog-supervised workers: all byte strings of length <=2 (quick) / <=3 (thorough, 16.8 M); all strings of length <=4 (quick) / <=5 (thorough) over a 23-byte grammar alphabet; every head of the subset with an argument from a 32-value boundary list (incl. 2^62, 2^63+-1, 2^64-k for k<=16) in every head width, 0..3 content bytes, in 5 nesting contexts; every map of 1..3 pairs with keys (with repetition, every order) from an 11-key pool of mixed types/lengths and 4 value shapes in 3 contexts; every generated nested item with <=4 nodes (quick; thorough also <=5 nodes, those unmutated or with a key pair swapped / duplicated or a trailing byte), depth <=3, unmutated and with one mutation (head widened, length/count replaced by each of 9 boundary values (thorough: all 32), key pair swapped/duplicated, truncation at every offset, trailing byte). Oracle: reference recogniser refcbor.Deterministic (total, uint64 arithmetic); panic counts as refusal, non-termination (watchdog) is a violation. Non-trivial = reference made a verdict the implementation matched; distinct by input hash.",
+		Rule:        "choice-tree enumeration of inputs to cbor.Deterministic executed in watchdog-supervised workers: all byte strings of length <=2 (quick) / <=3 (thorough, 16.8 M); all strings of length <=4 (quick) / <=5 (thorough) over a 23-byte grammar alphabet; every head of the subset with an argument from a 32-value boundary list (incl. 2^62, 2^63+-1, 2^64-k for k<=16) in every head width, 0..3 content bytes, in 5 nesting contexts; byte and text strings of 23, 24, 25, 255, 256, 257, 65535, 65536 bytes in 8 contexts (alone, after an item, last array element, last map value, nested twice, followed by an item, as a map key), intact, cut short by 1..10 bytes, or with a declared length off by +1..+9 / -1, -2, -9; every map of 1..3 pairs with keys (with repetition, every order) from an 11-key pool of mixed types/lengths and 4 value shapes in 3 contexts; every generated nested item with <=4 nodes (quick; thorough also <=5 nodes, those unmutated or with a key pair swapped / duplicated or a trailing byte), depth <=3, unmutated and with one mutation (head widened, length/count replaced by each of 9 boundary values (thorough: all 32), key pair swapped/duplicated, truncation at every offset, trailing byte). Oracle: reference recogniser refcbor.Deterministic (total, uint64 arithmetic); panic counts as refusal, non-termination (watchdog) is a violation. Non-trivial = reference made a verdict the implementation matched; distinct by input hash.",
 		Assumptions: []string{"refcbor.Deterministic implements RFC 8949 section 4.2.1 for major types 0,2,3,4,5 (text is not required to be valid UTF-8: well-formedness, not validity)", "a panic of cbor.Deterministic is its way of refusing truncated input (required by the repository's own tests)"},
-		Harnesses:   []*mc.Harness{all, reduced, wide, maps, trees, encOut},
+		Harnesses:   []*mc.Harness{all, reduced, wide, long, maps, trees, encOut},
 		Guard: func(s map[string]*mc.Stats) error {
 			t := s["C13/generated-items"]
 			if t.Executions < 10000 {
